@@ -16,14 +16,16 @@ TITLE = "The Hyperscan tokenizer is a drop-in replacement for the default one"
 TECHNIQUE = (
     "bounded-exhaustive exploration: every extractor's witness x every ordered pair of ASCII/multi-byte neighbours, all "
     "fragment documents <= k, compared candidate-by-candidate with the reference tokenizer; exhaustive fault enumeration of "
-    "the cache file (every truncation length, every value of every header byte, bit flips, zeroed blocks, appended bytes)"
+    "the cache file (every truncation length, every value of every header byte, bit flips, zeroed blocks, appended bytes) "
+    "and crash-point enumeration of the real cache-writing code (writer killed after N bytes via RLIMIT_FSIZE)"
 )
 RULE = (
     "matrix: for each of the 6.8k extractors one witness (shortest word of its regex NFA) x all ordered neighbour pairs from a "
     "7-symbol set (quick) / 12-symbol set plus 36 two-character neighbours (thorough), ASCII and multi-byte; docs: all concatenations of <= k "
     "fragments of A14 (multi-byte characters before, after, between and at literal positions inside citations) vs the plain "
     "reference Tokenizer; cache: every fault of the fault model applied to a freshly written cache of a 7-extractor list, then "
-    "a new tokenizer is built and 20 texts tokenised. distinct = distinct text / distinct cache content; non-trivial = text "
+    "a new tokenizer is built and 20 texts tokenised; crash: the real writer is killed after N bytes for every N of the crash-point "
+    "set and tokenizers are then built twice on whatever it left. distinct = distinct text / distinct cache content; non-trivial = text "
     "with >= 1 reference candidate / cache content different from the valid one."
 )
 ASSUMPTIONS = [
@@ -294,6 +296,49 @@ def run_fault(dirpath, path, content):
     return []
 
 
+def crash_points(size, tier):
+    pts = {0, 1, 7, 8, 9, 39, 40, 41, 64, 100, 4095, 4096, 4097, size // 2, size - 4097, size - 4096, size - 9, size - 8, size - 1}
+    step = 4096 if tier == "quick" else 256
+    pts |= set(range(0, size, step))
+    return sorted(p for p in pts if 0 <= p < size)
+
+
+def run_crash(limit):
+    """Crash the REAL cache-writing code after `limit` bytes (RLIMIT_FSIZE in a forked child, killed by
+    SIGXFSZ like a process dying mid-write), then build tokenizers on whatever it left behind."""
+    import resource
+    import signal
+
+    os.makedirs(VERIF / ".work", exist_ok=True)
+    d = tempfile.mkdtemp(prefix="c14c-", dir=str(VERIF / ".work"))
+    try:
+        pid = os.fork()
+        if pid == 0:
+            try:
+                signal.signal(signal.SIGXFSZ, signal.SIG_DFL)
+                resource.setrlimit(resource.RLIMIT_FSIZE, (limit, limit))
+                tk = T.HyperscanTokenizer(extractors=list(G["cache_pool"]), cache_dir=d)
+                tk.hyperscan_db
+            finally:
+                os._exit(0)
+        _, status = os.waitpid(pid, 0)
+        left = sorted((f, os.path.getsize(os.path.join(d, f))) for f in os.listdir(d))
+        res = []
+        for attempt in (1, 2):
+            try:
+                tk = T.HyperscanTokenizer(extractors=list(G["cache_pool"]), cache_dir=d)
+                got = [[freeze(ser_token(t)) for t in tk.tokenize(x)[0]] for x in CACHE_TEXTS]
+            except BaseException as e:  # noqa: BLE001
+                res.append(("crash-raise", f"writer crashed after {limit} bytes leaving {left}; tokenizer construction #{attempt} raised {short_exc(e)}"))
+                break
+            if got != G["baseline"]:
+                res.append(("crash-tokens-differ", f"writer crashed after {limit} bytes leaving {left}; tokens differ from the cache-less tokenizer (construction #{attempt})"))
+                break
+        return res, left, os.WIFSIGNALED(status)
+    finally:
+        shutil.rmtree(d, ignore_errors=True)
+
+
 def fault_list(valid, tier):
     """Deterministic list of (description, bytes or None)."""
     N = len(valid)
@@ -325,7 +370,10 @@ def fault_list(valid, tier):
 
 def replay(case):
     setup("replay", 0)
-    if case["part"] == "cache":
+    if case["part"] == "crash":
+        G["baseline"] = baseline_tokens()
+        res, _, _ = run_crash(case["limit"])
+    elif case["part"] == "cache":
         os.makedirs(VERIF / ".work", exist_ok=True)
         d = tempfile.mkdtemp(prefix="c14-", dir=str(VERIF / ".work"))
         try:
@@ -351,6 +399,8 @@ def shards(tier, seed):
         out.append({"part": "docs", "depth": DEPTH[tier], **sh})
     for r in range(32):
         out.append({"part": "cache", "r": r, "n": 32, "tier": tier})
+    for r in range(16):
+        out.append({"part": "crash", "r": r, "n": 16, "tier": tier})
     return out
 
 
@@ -394,6 +444,20 @@ def run_shard(sh):
             seen.add(text)
             res, nref = check_text(text, "REF")
             record({"part": "docs", "text": text, "ref": "REF"}, h64("D" + text), res, nref > 0, "docs")
+        return st
+    if sh["part"] == "crash":
+        os.makedirs(VERIF / ".work", exist_ok=True)
+        d0 = tempfile.mkdtemp(prefix="c14-", dir=str(VERIF / ".work"))
+        try:
+            _, valid = fresh_cache(d0)
+        finally:
+            shutil.rmtree(d0, ignore_errors=True)
+        G["baseline"] = baseline_tokens()
+        for limit in crash_points(len(valid), sh["tier"])[sh["r"] :: sh["n"]]:
+            res, left, killed = run_crash(limit)
+            p["writer_killed"] = p.get("writer_killed", 0) + int(killed)
+            record({"part": "crash", "limit": limit}, h64(["crash", limit]), res, killed, "crash")
+            st.outcomes.add(h64(left))
         return st
     os.makedirs(VERIF / ".work", exist_ok=True)
     d = tempfile.mkdtemp(prefix="c14-", dir=str(VERIF / ".work"))
